@@ -54,7 +54,11 @@ claim("C11",
       "Lean theorems KB.Props.C11 on the reference engine every other theorem uses: batch all-or-nothing and applied exactly when all conditions "
       "hold on the state each op sees; failures are condition failures (contractual Quirks); the store is a map; forward/backward iteration yields "
       "exactly the interval, ordered, limit = prefix with at least `limit` elements. Each adapter (memkv, badger, tikv mock, each behind the metrics "
-      "wrapper) is tied to the reference engine with its recorded Quirks by the differential `engine` suite + a dict-based contract oracle.",
+      "wrapper) is tied to the reference engine with its recorded Quirks by the differential `engine` suite + a dict-based contract oracle. "
+      "KB.Props.C11Conflict (model KB.EngineTxn: one TiKV transaction attempt with start timestamp, write records and rollback marks, and the bounded re-run "
+      "loop of Commit): a rollback mark is never reported as a failed condition, a failed condition is reported only if a condition was false on data the store "
+      "really went through, a conflict that persists is an error and applies nothing; the pre-fix mappings are refuted. Correspondence: abandoned transactions "
+      "(cancelled prewrite on the mock cluster) racing batches begun earlier.",
       TB + "Third-party engines (skiplist, badger, tikv client/mock) are modelled, not verified: snapshot isolation under real concurrency is assumed.",
       "Lean 4 proof about the reference engine + differential correspondence of every adapter against it", "DESIGN.md §5 C11")
 claim("C12",
@@ -104,10 +108,14 @@ claim("C06",
 claim("C07",
       "Lean theorems KB.Props.C07 over the compaction pass of the worker loop and the execution of its delete calls under an ARBITRARY failure mask "
       "(any individual failure of any class, condition errors on plain deletes included; any crash point): reads at every revision >= R of every key are unchanged; only records <= R that are superseded / "
-      "tombstones / deleted indexes are removed; live keys keep index and newest version. Correspondence: histories x masks x crash points on three engines, "
-      "reads before/after, writes after, skipped prefixes untouched.",
-      TB + "Non-empty raw keys (witness for the empty key proved); "
-      "expiry of event keys excluded (C17).",
+      "tombstones / deleted indexes are removed; live keys keep index and newest version. KB.Props.C07Race / C07Par: the same with writers interleaved at "
+      "storage-call granularity, one or several (staggered) workers; C07Ranges: the configured ranges for EVERY prefix / skipped-prefix list; C07Expire: the "
+      "same pass WITH the ttl pass enabled - every key that is not an Event, or whose revision record is younger than the timeout revision, or whose expired "
+      "revision record survived the pass, reads unchanged at every revision >= R; C07Atomic: an expired Event is removed all-or-nothing under every mask and "
+      "crash point (one write batch), and after a pass interrupted ANYWHERE every key that reads present accepts a guarded update naming the revision read and "
+      "every key that reads absent accepts a create. Correspondence: histories x masks x crash points on three engines, "
+      "reads before/after, writes after, skipped prefixes untouched; expiry histories on the engine without native ttl with the batch as a maskable call.",
+      TB + "Non-empty raw keys (witness for the empty key proved); revisions below 2^64-1.",
       "Lean 4 proof (loop invariant: a tombstone goes only after all older versions went) + fault-mask differential correspondence", "DESIGN.md §5 C07")
 claim("C08",
       "Lean theorems KB.Props.C08: for every store, request revision, failure mask and engine, doCompact never lowers the floor (exactly max(old, clamped "
@@ -175,7 +183,8 @@ claim("C19",
       "PARTIAL. Lean theorems KB.Props.C19: generic `lock_discipline_race_free` over an abstract trace model (threads, mutex/RW-mutex/atomic edges, happens-before; "
       "mutual exclusion derived from an operational lock machine): a location whose conflicting accesses hold a common lock (one in write mode), or is atomic-only, or "
       "thread-confined, has no data race in any well-formed trace; instance `lock_table_disciplined` by decide over the lock table REGENERATED from the source "
-      "(120 accesses / 25 shared locations of memkv, ring, hub, retry queue, tso, slots, scanner, leader, election, syncer, etcd watcher). Failing-input search: "
+      "(120 accesses / 25 shared locations of memkv, ring, hub, retry queue, tso, slots, scanner, leader, election, syncer, etcd watcher); OrderC19: structural facts "
+      "for locations the table does not track, and `no_reentrant_lock_acquisition` over all methods of /repo/pkg. Failing-input search: "
       "go test -race workloads (concurrent requests, watches, two compactions, retries).",
       "Trusted: kbextract's lexical lock analysis (locks held at each syntactic access, one level of caller propagation, the memkv batch protocol), the abstract memory "
       "model (no channel / WaitGroup / Once edges), confinement claims; only the tracked fields; third-party engines out of scope. " + TB,
